@@ -135,11 +135,38 @@ func (ev *Eval) NormAtom(a *Atom) *Atom {
 	return a
 }
 
+// Arg returns the i-th argument of the effect. Values frozen for THIS call (read just before it) are shown live:
+// at the call point the snapshot and the live value coincide.
 func (ev *Eval) Arg(i int) *Term {
 	if i < len(ev.E.Args) {
-		return ev.Norm(ev.E.Args[i])
+		t := ev.E.Args[i]
+		if v, ok := ev.E.Instr.(interface{ Name() string }); ok {
+			t = unfreezeID(t, funcID(ev.E.C.Fn)+"#"+v.Name())
+		}
+		return ev.Norm(t)
 	}
 	return Unk("noarg")
+}
+
+func unfreezeID(t *Term, id string) *Term {
+	if t.Op == "pre" && t.Name == id && len(t.Args) == 1 {
+		return unfreezeID(t.Args[0], id)
+	}
+	if len(t.Args) == 0 {
+		return t
+	}
+	changed := false
+	na := make([]*Term, len(t.Args))
+	for i, a := range t.Args {
+		na[i] = unfreezeID(a, id)
+		if na[i] != a {
+			changed = true
+		}
+	}
+	if !changed {
+		return t
+	}
+	return rebuild(t, na)
 }
 
 // Has: does the atom (or a stronger one) hold at the effect? Exact, then by implication, then modulo the
